@@ -270,10 +270,15 @@ impl Prop for C09T {
                         );
                     }
                     match want {
+                        // fixed by the statement itself: the overflow marker, handler-raised
+                        // values (number and text verbatim) and the empty answer
+                        Some(Error::QueueOverflow) => want_resp.extend_from_slice(b"-350,\"Queue overflow\"\n"),
+                        Some(Error::Custom(code, text)) => want_resp.extend_from_slice(format!("{code},\"{text}\"\n").as_bytes()),
+                        // other standard errors: number and description as the library maps them
                         Some(e) => want_resp.extend(lib_line_pair(e.number(), e.into())),
                         None => {
                             st.bump("reach:read_empty_queue");
-                            want_resp.extend(lib_line_pair(0, ""))
+                            want_resp.extend_from_slice(b"0,\"\"\n")
                         }
                     }
                 }
